@@ -118,38 +118,50 @@ pub trait EmitAssociated {
     fn emit_implementation(&self) -> Vec<TokenStream>;
 }
 
+/// Predicates of a where clause grouped by their bounded type, so that `T: A, T: B`
+/// yields a single associated type `T: A + B`.
+fn merged_type_predicates(where_clause: &WhereClause) -> Vec<syn::PredicateType> {
+    let mut merged: Vec<syn::PredicateType> = vec![];
+    for predicate in &where_clause.predicates {
+        if let WherePredicate::Type(predicate) = predicate {
+            match merged
+                .iter_mut()
+                .find(|known| known.bounded_ty == predicate.bounded_ty)
+            {
+                Some(known) => known.bounds.extend(predicate.bounds.iter().cloned()),
+                None => merged.push(predicate.clone()),
+            }
+        }
+    }
+    merged
+}
+
 impl EmitAssociated for WhereClause {
     fn emit_declaration(&self) -> Vec<TokenStream> {
-        self.predicates
+        merged_type_predicates(self)
             .iter()
-            .filter_map(|predicate| match predicate {
-                WherePredicate::Type(predicate) => {
-                    let bounded_ty = &predicate.bounded_ty;
-                    let bounds = &predicate.bounds;
-                    let lifetimes = &predicate.lifetimes.as_ref().map(|lf| {
-                        let lf = &lf.lifetimes;
-                        quote! { < #lf > }
-                    });
-                    Some(quote! { type #bounded_ty #lifetimes: #bounds; })
-                }
-                _ => None,
+            .map(|predicate| {
+                let bounded_ty = &predicate.bounded_ty;
+                let bounds = &predicate.bounds;
+                let lifetimes = &predicate.lifetimes.as_ref().map(|lf| {
+                    let lf = &lf.lifetimes;
+                    quote! { < #lf > }
+                });
+                quote! { type #bounded_ty #lifetimes: #bounds; }
             })
             .collect()
     }
 
     fn emit_implementation(&self) -> Vec<TokenStream> {
-        self.predicates
+        merged_type_predicates(self)
             .iter()
-            .filter_map(|predicate| match predicate {
-                WherePredicate::Type(predicate) => {
-                    let bounded_ty = &predicate.bounded_ty;
-                    let lifetimes = &predicate.lifetimes.as_ref().map(|lf| {
-                        let lf = &lf.lifetimes;
-                        quote! { < #lf > }
-                    });
-                    Some(quote! { type #bounded_ty #lifetimes = #bounded_ty; })
-                }
-                _ => None,
+            .map(|predicate| {
+                let bounded_ty = &predicate.bounded_ty;
+                let lifetimes = &predicate.lifetimes.as_ref().map(|lf| {
+                    let lf = &lf.lifetimes;
+                    quote! { < #lf > }
+                });
+                quote! { type #bounded_ty #lifetimes = #bounded_ty; }
             })
             .collect()
     }
